@@ -82,6 +82,8 @@ def cases(tier: str, seed: int) -> list[dict]:
         out.append({"kind": kind, "scheme": scheme, "dim": dim, "et": et, "nops": 3, "script": True})
     for kind, scheme, dim, et in CONFIGS:
         out.append({"kind": kind, "scheme": scheme, "dim": dim, "et": et, "nops": 2, "script": "virgin-first"})
+        if kind not in ("beam", "weakforms"):
+            out.append({"kind": kind, "scheme": scheme, "dim": dim, "et": et, "nops": 2, "script": "mesh-after-return"})
     for kind, scheme, dim, et in CONFIGS:
         if kind in ("thermal", "elastic", "weakforms") and not (kind == "weakforms" and scheme == "static"):
             out.append({"kind": kind, "scheme": scheme, "dim": dim, "et": et, "nops": 2, "script": "steady-then-transient"})
@@ -611,6 +613,11 @@ def _run(case, ctx, rng, kind, scheme, dim, et, key0, root):
                     # the initial state is stored as iteration 0 before anything is solved, and restored after load steps
                     script = [(op_save, None), (op_step, None), (op_save, None), (op_step, None), (op_save, None), (op_set_iter, 0), (op_step, None), (op_save, None),
                               (op_set_iter, 0), (op_get, 0), (op_result_iter, 0), (op_set_iter, 2)]
+                if case.get("script") == "mesh-after-return":
+                    # a new mesh is given to the simulation AFTER it went back to an iteration of an older mesh; every stored iteration
+                    # still comes back on the mesh it was saved with
+                    script = [(op_save, None), (op_mesh, None), (op_save, None), (op_set_iter, 0), (op_mesh, None), (op_save, None), (op_set_iter, 0),
+                              (op_set_iter, 2), (op_set_iter, 1), (op_result_iter, 2), (op_set_iter, 1), (op_mesh, None), (op_save, None), (op_set_iter, 3), (op_set_iter, 2)]
                 if case.get("script") == "transient-then-steady":
                     # transient steps saved with the caller's info dict, then a steady state computed and saved with the SAME dict, then
                     # the steady state restored while the transient scheme is in force again: its rates are zero
